@@ -8,6 +8,15 @@ S3  the lines that ARE the property (contents after restore+commit / abort / reo
     later savepoints, listing / restorability of persistent savepoints) plus the space oracles the harness
     evaluates itself (page-ownership equation after every transaction boundary, nothing pending after
     cleanup, tracker references released, clean check_integrity).
+
+Allocation records (coq/Txn/AllocRec.v on top of coq/Txn/Own.v; `c07 rec`, ocaml/c07r_driver.ml):
+S2r after every API call of a second batch of histories the page-ownership state AND redb's allocation
+    records (DATA_ALLOCATED_TABLE, unpersisted.allocations, PageTracker, dirty, valid savepoints, invalidated)
+    are observed through H3 and compared with the extracted `step2`; on every restore the record-based
+    `restore_rec` is compared with what redb freed / queued.
+S3r the extracted, proved checkers `own_checkb` and `rinv_checkb` on every observed state; Rust-side direct
+    checks (allocation_txn is the inverse index, working DATA_ALLOCATED = committed, the no-leak schedule of
+    `c07_savepoint_no_leak` leaves nothing pending and empty records).
 """
 import os
 import re
@@ -126,12 +135,93 @@ def analyse(ctx, n, tag="", only=None):
     return res
 
 
+REC_OKS = ("ok", "opaque", "first")
+
+
+def _rec_log(ctx, n, steps, hist):
+    """API-call log of one history of the rec batch (deterministic for a seed)"""
+    ctx.harness("c07", ["rec", n, steps, "only", hist])
+    p = os.path.join(ctx.workdir, "rhistory_logs.txt")
+    return open(p).read().split("\n")[:400] if os.path.exists(p) else []
+
+
+def rec_once(ctx, n, steps, only=None):
+    res = {"ok": True, "detail": None, "head": "", "s3fail": [], "s2bad": [], "rust": [], "states": 0, "s2checked": 0,
+           "restores_checked": 0}
+    rc, out = ctx.harness("c07", ["rec", n, steps] + (["only", only] if only is not None else []))
+    if rc != 0:
+        res["ok"], res["detail"] = False, "harness c07 rec failed rc=%s: %s" % (rc, (out or "")[-1500:])
+        return res
+    res["head"] = out
+    rc2, err = ctx.driver("c07r", "rtrace.txt", "rverdict.txt")
+    if rc2 != 0:
+        res["ok"], res["detail"] = False, "record-model driver failed rc=%s: %s" % (rc2, err)
+        return res
+    for line in open(os.path.join(ctx.workdir, "rverdict.txt")):
+        parts = line.split()
+        if len(parts) != 4:
+            continue
+        label, s3, s2, rr = parts[0], parts[1][3:], parts[2][3:], parts[3][2:]
+        res["states"] += 1
+        if s3 != "ok":
+            res["s3fail"].append((label, s3))
+        if s2 not in REC_OKS:
+            res["s2bad"].append((label, "step2 vs implementation: " + s2))
+        elif rr not in ("-", "ok"):
+            res["s2bad"].append((label, "record-based restore vs implementation: " + rr))
+        if s2 == "ok":
+            res["s2checked"] += 1
+        if rr == "ok":
+            res["restores_checked"] += 1
+    rv = open(os.path.join(ctx.workdir, "rrust_viol.txt")).read().strip()
+    res["rust"] = [l for l in rv.split("\n") if l]
+    return res
+
+
+def _rec_hist(label):
+    m = re.match(r"h(\d+)\.(\d+):", label)
+    return (int(m.group(1)), int(m.group(2))) if m else (None, None)
+
+
+def rec_report(ctx, n, steps, res):
+    """S3 / direct failures of the rec batch -> replayable violations"""
+    seen = set()
+    for label, what in res["s3fail"]:
+        h, st = _rec_hist(label)
+        first = what.split(":", 1)[1].split(",")[0] if ":" in what else what
+        key = "c07-rec-%s" % re.sub(r"\(.*", "", first)
+        if key in seen:
+            continue
+        seen.add(key)
+        ctx.violation(key,
+                      "allocation-record / page-ownership invariant violated on the implementation after `%s`: failing conjunct(s): %s"
+                      % (label, what),
+                      {"mode": "rec", "histories": n, "steps": steps, "history": h, "step": st, "state_label": label,
+                       "failing_conjuncts": what, "api_calls": _rec_log(ctx, n, steps, h),
+                       "reproduce": "VERIF_SEED=%d harness bin c07 rec %d %d only %s" % (ctx.seed, n, steps, h)})
+    for v in res["rust"]:
+        m = re.match(r"h(\d+)", v)
+        h = int(m.group(1)) if m else None
+        kind = re.sub(r"[0-9]+", "N", re.sub(r"^h\d+( s\d+)?( after `[^`]*`)?: ", "", v))[:50]
+        key = "c07-recdirect-%s" % re.sub(r"[^A-Za-z]+", "_", kind)
+        if key in seen:
+            continue
+        seen.add(key)
+        ctx.violation(key, "direct check on the implementation failed: " + v,
+                      {"mode": "rec", "histories": n, "steps": steps, "history": h, "message": v,
+                       "api_calls": _rec_log(ctx, n, steps, h) if h is not None else [],
+                       "reproduce": "VERIF_SEED=%d harness bin c07 rec %d %d only %s" % (ctx.seed, n, steps, h)})
+
+
 def _replay_target(ctx):
     """--replay <file>: re-run exactly the history the replay file names (same seed, same batch size)."""
     if not getattr(ctx, "replay", None):
         return None
     import json
     o = json.load(open(ctx.replay))
+    if o.get("mode") == "rec":
+        ctx.seed = int(o.get("seed", ctx.seed))
+        return ("rec", int(o["histories"]), int(o["steps"]), o.get("history"))
     m = re.search(r"bin c07 (\d+) (\d+)", o.get("reproduce", ""))
     ctx.seed = int(o.get("seed", ctx.seed))
     return (int(m.group(1)), int(m.group(2))) if m else None
@@ -140,39 +230,78 @@ def _replay_target(ctx):
 def run(ctx):
     s1 = ctx.proof_obligations()
     n = 260 if ctx.quick else 3500
+    rn, rsteps = (200, 40) if ctx.quick else (4000, 60)
     rp = _replay_target(ctx)
-    r = analyse(ctx, rp[0], only=rp[1]) if rp else analyse(ctx, n)
+    if rp and rp[0] == "rec":
+        rn, rsteps = rp[1], rp[2]
+        r = {"ok": True, "detail": None, "s2": [], "stats": "", "ops": 0, "nontrivial": 0, "samples": [], "viol": 0}
+        rr = rec_once(ctx, rn, rsteps, only=rp[3])
+    else:
+        r = analyse(ctx, rp[0], only=rp[1]) if rp else analyse(ctx, n)
+        rr = rec_once(ctx, rn, rsteps) if not rp else None
     s2_ok, detail, searched = True, None, None
     if not r["ok"]:
         s2_ok, detail = False, r["detail"]
     elif r["s2"]:
         s2_ok, detail = False, {"bookkeeping_differences": r["s2"][:5], "count": len(r["s2"])}
-    if (not s1["ok"] or not s2_ok) and not ctx.violations and r["ok"]:
+    rec_s2_bad = False
+    if rr is not None:
+        if not rr["ok"]:
+            s2_ok, detail = False, rr["detail"]
+        else:
+            rec_report(ctx, rn, rsteps, rr)
+            if rr["s2bad"]:
+                rec_s2_bad = True
+                s2_ok = False
+                detail = {"allocation_record_differences": rr["s2bad"][:5], "count": len(rr["s2bad"]),
+                          "api_calls": _rec_log(ctx, rn, rsteps, _rec_hist(rr["s2bad"][0][0])[0])[:120],
+                          "previous_detail": detail}
+    if (not s1["ok"] or r["s2"]) and not ctx.violations and r["ok"] and not (rp and rp[0] == "rec"):
         # directed search: many more histories from derived seeds
         tried = 0
         base = ctx.seed
         for k in range(1, 5 if ctx.quick else 9):
             ctx.seed = base * 1000 + k
-            rr = analyse(ctx, n * 2, tag="search")
-            tried += rr["ops"]
+            sr = analyse(ctx, n * 2, tag="search")
+            tried += sr["ops"]
             if ctx.violations:
                 break
         ctx.seed = base
         searched = "directed search: %d more operations over derived seeds" % tried
+    if (rec_s2_bad or (not s1["ok"] and rr is not None and rr["ok"])) and not ctx.violations:
+        # the record model and the implementation differ but no checked invariant failed so far: a larger budget
+        # of histories (same generator, more and longer) looking for an S3 / direct failure
+        big = rec_once(ctx, rn * 4, rsteps + 20)
+        searched = (searched + "; " if searched else "") + "re-ran %d record histories x %d steps: %d S3 failures, %d direct failures" % (
+            rn * 4, rsteps + 20, len(big["s3fail"]), len(big["rust"]))
+        if big["ok"]:
+            rec_report(ctx, rn * 4, rsteps + 20, big)
+    recstates = rr["states"] if rr and rr["ok"] else 0
+    mrec = re.search(r"distinct_situations=(\d+) histories_with_record_restore=(\d+)", rr["head"]) if rr and rr["ok"] else None
     cov = {
-        "evaluations": r["ops"], "distinct_nontrivial": r["nontrivial"],
+        "evaluations": r["ops"] + recstates, "distinct_nontrivial": r["nontrivial"] + (int(mrec.group(2)) if mrec else 0),
+        "rec_states_checked_by_rinv_checkb_and_own_checkb": recstates,
+        "rec_transitions_equal_to_step2": rr["s2checked"] if rr and rr["ok"] else 0,
+        "rec_restores_equal_to_record_based_restore": rr["restores_checked"] if rr and rr["ok"] else 0,
+        "rec_distinct_situations": int(mrec.group(1)) if mrec else 0,
+        "rec_input_distribution": (rr["head"].strip() if rr and rr["ok"] else ""),
         "rule": "random histories (25-85 ops + cleanup) over begin/durability/2PC/quick-repair flags/data writes/ephemeral+persistent savepoint/"
                 "get/delete/restore/list/commit/abort/drop/clean reopen/crash image (all, none, subsets of unsynced writes)/check_integrity on 512-1024 B pages; "
-                "non-trivial = distinct history with at least one successful restore of a savepoint created in that history",
-        "samples": r["samples"], "traces_validated_against_impl": r["ops"],
+                "non-trivial = distinct history with at least one successful restore of a savepoint created in that history; "
+                "record batch: random + directed histories (begin/table ops/durability/quick-repair/savepoints/restore incl. twice per txn and after "
+                "non-durable commits/delete/drop/abort/reopen, then the no-leak schedule), one evaluation = one observed (ownership state, records) "
+                "after an API call, non-trivial = history with a restore that had allocation records or tracker pages to consult",
+        "samples": r["samples"], "traces_validated_against_impl": r["ops"] + (rr["s2checked"] if rr and rr["ok"] else 0),
         "input_distribution": r["stats"],
         "trusted_base": ["Coq 8.16.1 kernel + vm_compute", "harness/src/bin/c07.rs + harness/src/rvdb.rs (generator, contents dump, crash images)",
-                         "extraction (ExtrOcamlBasic only) + ocaml/c07_driver.ml",
+                         "extraction (ExtrOcamlBasic only) + ocaml/c07_driver.ml, ocaml/c07r_driver.ml (parsing, set comparison)",
+                         "harness/src/c07_rec.rs + harness/src/own_util.rs (abstraction of H3 snapshots to page-id sets and record tables)",
                          "H3 hooks in /repo (read-only snapshots, redb's own page walkers) for the space oracles",
                          "contents are compared through the public read API (a defect common to reader and writer of the same bytes is C04/C10's subject)"],
     }
     return ctx.finish("proof", cov,
-                      assumptions=["data contents are opaque tokens in the model; pages are not modelled (space claims are validated per run through H3, proved in C06's model)",
+                      assumptions=["data contents are opaque tokens in the savepoint model; pages and allocation records are modelled in coq/Txn/Own.v + AllocRec.v "
+                                   "(b-tree page churn is an oracle there, record pagination abstracted); that the crate behaves like these models is validated per run",
                                    "single-threaded histories (one write transaction at a time, savepoint ops from its thread)",
                                    "crash images are built at API-call boundaries from the recorded op stream"],
                       s2_ok=s2_ok, s2_detail=detail, searched=searched)
